@@ -27,7 +27,7 @@ RULE = (
     "delimited with large extent, unions) with capacity or extent N = 2**e for every e in 1..63 (thorough: also 2**e-1 and 2**e+1), "
     "built through the constructors (a subset also read from DSDL text); operations: build, min, max, extent, fixed_length, "
     "is_aligned_at_byte of the type and of every field offset (min/max too), == and hash against an independently built twin, != against "
-    "a neighbour capacity. Non-trivial iff e >= 7; distinct by canonical hash of (template, N, operation)"
+    "a neighbour capacity, and a sweep of `% d` over d in (3, 5, 7, 9, 12, 24, 40, 64) on one object followed by `% 24` of every field offset. Non-trivial iff e >= 7; distinct by canonical hash of (template, N, operation)"
 )
 ASSUMPTIONS = [
     "cost is measured in deterministic steps (Python-level loop iterations inside pydsdl/) plus a CPU-time backstop for C-level iterators; this shows boundedness on the enumerated family, not an asymptotic theorem",
@@ -37,6 +37,8 @@ ASSUMPTIONS = [
 STEP_BUDGET = 400000  # absolute, independent of e: a residue computation is at most 2d * d * d = 65k steps for d = 32
 GROWTH_FACTOR = 4  # steps(e) <= GROWTH_FACTOR * max(steps(e') for e' <= 8) + 2000
 CPU_BUDGET_S = 3.0
+SWEEP = (3, 5, 7, 9, 12, 24, 40, 64)
+SWEEP_BUDGET = 4 * sum(2 * d**3 for d in SWEEP)  # absolute, independent of e: each `% d` is at most 2d * d * d steps
 
 
 def templates():
@@ -192,6 +194,20 @@ def operations(desc, other_desc):
         return [a == b for a, b in zip(box["t"].fields, box["twin"].fields)] + [hash(a) == hash(b) for a, b in zip(box["t"].fields, box["twin"].fields)]
 
     ops.append(("field-equality", fields_eq))
+
+    def sweep():
+        # a sequence of queries with divisors that do not divide one another, on one object (solutions memoized for one divisor
+        # must not make the next one more expensive); every result is a residue set, never larger than its divisor
+        b = box["t"].bit_length_set
+        out = []
+        for d in SWEEP:
+            r = b % d
+            out.append(len(r) <= d)
+        for _f, off in box["t"].iterate_fields_with_offsets():
+            out.append(len(off % 24) <= 24)
+        return all(out)
+
+    ops.append(("modulo-sweep", sweep))
     return ops
 
 
@@ -247,6 +263,8 @@ def check_case(case, R: engine.Acc):
                 break
             if opname in ("equality",) and out != (True, True, False):
                 R.violation("twin-not-equal", "independently built twins are equal", one, observed=out)
+            if opname == "modulo-sweep" and out is not True:
+                R.violation("residue-set-larger-than-divisor:modulo-sweep", "no bit length set larger than the queried divisor is enumerated", one, observed=out)
             if opname == "hash" and out is not True:
                 R.violation("twin-hash-differs", "independently built twins have equal hashes", one, observed=out)
             R.counters["steps_total"] += steps
@@ -262,7 +280,8 @@ def check_case(case, R: engine.Acc):
                 break
             if e <= 8:
                 baseline[opname] = max(baseline.get(opname, 0), steps)
-            limit = min(STEP_BUDGET, GROWTH_FACTOR * baseline.get(opname, STEP_BUDGET) + 2000)
+            budget = SWEEP_BUDGET if opname == "modulo-sweep" else STEP_BUDGET
+            limit = min(budget, GROWTH_FACTOR * baseline.get(opname, budget) + 2000)
             if steps > limit or cpu > CPU_BUDGET_S:
                 R.outcome("over-budget")
                 R.violation("cost-grows-with-capacity:%s" % opname, "cost does not grow with capacities or extents", one, observed={"steps": steps, "cpu_s": round(cpu, 3)}, expected={"step_limit": limit, "baseline_small_instances": baseline.get(opname), "cpu_limit_s": CPU_BUDGET_S})
